@@ -677,6 +677,38 @@ class FakeLoop:
     def stop(self):
         self._stopping = True
 
+    def time(self):
+        return FAKE_TIME.monotonic()
+
+    def call_later(self, delay, cb, *args):
+        """asyncio's timer: the callback is queued on the loop `delay` seconds of VIRTUAL time from now (a helper thread
+        managed by the scheduler sleeps and then hands the callback over); returns a cancellable handle"""
+        import threading as _th
+        st = {"cancelled": False}
+        loop = self
+
+        def runner():
+            FAKE_TIME.sleep(max(0.0, float(delay)))
+            if not st["cancelled"] and not loop._closed:
+                try:
+                    loop.call_soon_threadsafe(cb, *args)
+                except RuntimeError:
+                    pass
+        t = _th.Thread(target=runner, name="loop-timer")
+        t.daemon = True
+        t.start()
+
+        class _Handle:
+            def cancel(self_inner):
+                st["cancelled"] = True
+
+            def cancelled(self_inner):
+                return st["cancelled"]
+        return _Handle()
+
+    def call_at(self, when, cb, *args):
+        return self.call_later(float(when) - self.time(), cb, *args)
+
     def run_in_executor(self, executor, func, *args):
         """asyncio's hand-off to a worker thread: the function runs in a thread of its own (managed by the scheduler
         like any other), concurrently with the loop; returns a minimal future-like object"""
